@@ -34,7 +34,9 @@ func c03Prefix(cs c03Case) []wop {
 // c03Run returns failures and whether the history is inside the property's domain.
 func c03Run(cs c03Case) (fs []F, ok bool, grew, inplace int) {
 	w := newWorld(typeByName(cs.Type), cs.C)
-	desc := func() string { return fmt.Sprintf("[%s C=%d root %d frames, dst=window [%d,%d)]", cs.Type, cs.C, cs.P, cs.S, cs.S+cs.L) }
+	desc := func() string {
+		return fmt.Sprintf("[%s C=%d root %d frames, dst=window [%d,%d)]", cs.Type, cs.C, cs.P, cs.S, cs.S+cs.L)
+	}
 	wrap := func(fs []F, ops []wop, i int) []F {
 		for k := range fs {
 			fs[k].Msg = desc() + " after " + fmt.Sprint(ops[:i]) + " :: " + fs[k].Msg
